@@ -67,9 +67,11 @@ Section Sound.
   Definition StoreOK (s : state) : Prop := forall k v, blookup k (s_blobs s) = Some v -> Den k v.
 
   (* [sound_fn sp f pvals]: along the plain execution of f on pvals, every kept node that is reached (dds.keep site or
-     data-function call) has a key in requested_paths [sp], and that key denotes the plain value of the node for the
-     arguments it receives in THIS execution.  This is what the signature scheme is supposed to guarantee
-     (DESIGN.md 4.1 / 4.4); it is the hypothesis under which the evaluation machinery is proved correct. *)
+     data-function call) has a key in requested_paths [sp], and that key denotes EXACTLY the plain value of the node
+     for the arguments it receives in THIS execution (in particular it denotes nothing when the node raises).  This is
+     what the signature scheme is supposed to guarantee (DESIGN.md 4.1 / 4.4); it is the hypothesis under which the
+     evaluation machinery is proved correct.  (The one-directional version "plain value => denoted" is too weak:
+     EvalProofs.dds_exec_correct_false.) *)
   Fixpoint sound_fn (sp : list (bytes * bytes)) (f : fn) (pvals : list rv) {struct f} : Prop :=
     match f with
     | Fn _ _ _ _ _ _ _ bds =>
@@ -90,7 +92,7 @@ Section Sound.
       | None => True
       | Some pv =>
         exists key, blookup path sp = Some key /\
-                    (forall v, pv_fn g pv = Ret v -> Den key v) /\ sound_fn sp g pv
+                    (forall v, Den key v <-> pv_fn g pv = Ret v) /\ sound_fn sp g pv
       end in
     let plain (g : fn) (pv : option (list rv)) : Prop :=
       match fn_annot g with
